@@ -471,6 +471,10 @@ class ArgumentParser(ParserDeprecations, ActionsContainer, ArgumentLinking, argp
         except (TypeError, KeyError) as ex:
             self.error(str(ex), ex)
 
+        finally:
+            if hasattr(self, "print_config"):
+                delattr(self, "print_config")  # no exit of this call (e.g. a subcommand's parser exiting) leaves the request for another parse method
+
         self._logger.debug("Parsed command line arguments: %s", args)
         return parsed_cfg
 
